@@ -5,7 +5,7 @@
    after fixes/C14-*.patch).  Palettes and rune tables: Gen/GenPalette.v (translator). *)
 From Coq Require Import List NArith ZArith QArith Bool Lia.
 From RareV Require Import Gen.GenPalette Base.Num Base.Res Model.Scale Model.Render Proofs.ScaleProof
-  Proofs.RenderBars Proofs.RenderTable Proofs.RenderTotal Proofs.ScaleRound Corr.C14Case Proofs.RenderCheck.
+  Proofs.RenderBars Proofs.RenderTable Proofs.RenderTotal Proofs.RenderHisto Proofs.ScaleRound Corr.C14Case Proofs.RenderCheck.
 Import ListNotations.
 Local Open Scope Q_scope.
 
@@ -209,6 +209,20 @@ Print Assumptions C14_bar_write.
 Print Assumptions C14_rows_one_cell_per_column.
 Print Assumptions C14_render_total.
 
+(* "bars ... grow with the value / are drawn proportionally", histogram, the FINAL screen: after
+   any history of WriteForLine / UpdateTotal / WriteFooter calls — lines written in any order, the
+   maximum growing at any point, any number of frames — the state is the fold of the calls
+   (running maximum, key width, last key/value per line) and every displayed line (value > 0) is
+   on the terminal as the line of its key and value under the CURRENT maximum and width: its bar
+   is bar_write (scale value 0 max) 50 for the current max. *)
+Theorem C14_histo_final : forall col uni m rnd fmt sb n ops h tm,
+  histo_run col uni m rnd fmt sb (histo_new n, []) ops = Ok (h, tm) ->
+  h = hstate col n ops /\
+  forall i k v, nth_error (h_items h) i = Some (k, v) -> (0 < v)%Z ->
+    exists l, histo_line col uni m rnd fmt sb h k v = Ok l /\ nth_error tm i = Some l.
+Proof. exact histo_final. Qed.
+Print Assumptions C14_histo_final.
+
 (* the fuel statement on its own: WriteHeader's loop ends within colCount + 1 iterations for any
    column names (empty ones included) *)
 Theorem C14_header_fuel : forall col names cc acc, (cc <= lenZ names)%Z ->
@@ -347,13 +361,13 @@ Theorem C14_check_sound :
         let vals := last_cols k (r_vals r) in
         count_in (spark_alpha c) (nth (S j) lines []) =
           (count_in (spark_alpha c) (name_cell c r) +
-           count_in (spark_alpha c) (match vals with [] => [] | v :: _ => fmt_of (c_fk c) v end) +
-           count_in (spark_alpha c) (match vals with [] => [] | _ => fmt_of (c_fk c) (last vals 0%Z) end) + k)%nat) /\
+           count_in (spark_alpha c) (match vals with [] => [] | v :: _ => fmt_of (c_fk c) v (a_min a) (a_max a) end) +
+           count_in (spark_alpha c) (match vals with [] => [] | _ => fmt_of (c_fk c) (last vals 0%Z) (a_min a) (a_max a) end) + k)%nat) /\
      ((rc < length (a_rows a))%nat -> In (more_txt (Z.of_nat (length (a_rows a) - rc))) lines)) /\
   (* data table: the displayed numbers are the aggregated numbers under the formatter *)
   (forall c ncols nrows rt a lines, data_chk c ncols nrows rt a lines = true ->
      forall j r, nth_error (firstn nrows (a_rows a)) j = Some r ->
-       words [] (nth (S j) lines []) = data_row_words c (Nat.min ncols (length (a_cols a))) rt r).
+       words [] (nth (S j) lines []) = data_row_words c (a_min a) (a_max a) (Nat.min ncols (length (a_cols a))) rt r).
 Proof.
   split. exact check_scale_sound. split. exact check_bucket_sound. split. exact check_length_sound.
   split. exact check_barw_sound. split. exact check_stack_sound. split. exact check_table_sound.
@@ -367,3 +381,19 @@ Theorem C14_check_cells_sound :
      length l = length us /\ Forall (fun s => lenZ s = 1%Z) l).
 Proof. exact check_cells_sound. Qed.
 Print Assumptions C14_check_cells_sound.
+
+(* ... and for the two clauses added with the final-screen and formatter checks *)
+Theorem C14_check_histo_sound : forall c n sb ops lines, check (IHisto c n sb ops) (OS lines) = true ->
+  let h := hstate (c_col c) n ops in
+  forall i k v, nth_error (h_items h) i = Some (k, v) -> (0 < v)%Z ->
+    exists l, histo_line (c_col c) (c_uni c) (m_of (c_mp c)) round53 (fmt_of (c_fk c)) sb h k v = Ok l /\
+              nth i lines [] = vis (c_col c) l.
+Proof. exact check_histo_sound. Qed.
+Print Assumptions C14_check_histo_sound.
+(* "displayed numbers equal the aggregated numbers under the chosen formatter": an accepted
+   sequence of outputs of ONE compiled --format expression is, call by call, the expression
+   instantiated with that call's (value, min, max) — no dependence on earlier calls *)
+Theorem C14_check_fmt_sound : forall f calls l, check (IFmt f calls) (OS l) = true ->
+  Forall2 (fun x out => out = fmt_of f (fst (fst x)) (snd (fst x)) (snd x)) calls l.
+Proof. exact check_fmt_sound. Qed.
+Print Assumptions C14_check_fmt_sound.
